@@ -103,4 +103,35 @@ ReadResult ==
     ELSE LET ok == {n \in ConfigNames : Complete(n)} IN
          IF ok = {} THEN 0 ELSE files[NewestName(ok)].ver
 ReadIsValidated == ReadOK(ReadResult)
+
+(* ---- design-level model 2: a HISTORY of updates with crashes, restarts and cache cleanup ------
+   After a crash the next start fetches the next version into whatever the crash left behind;
+   a completed save is followed by the cleanup of cleanupOldVersions: unlink the oldest
+   cache files (partial ones count as files!) until at most CacheSize remain.               *)
+CONSTANT CacheSize
+Programme2(v) == Programme(v) \o << <<"cleanup">> >>
+D2Init == /\ full = [v \in 1..MaxVer |-> 2]
+          /\ files = [n \in Names |-> Absent]
+          /\ vnew = 1 /\ finals = {FinalName(v) : v \in 1..MaxVer}
+          /\ prog = Programme2(1) /\ done = FALSE /\ pcw = 0
+OldestName(S) == CHOOSE n \in S : \A m \in S : Rank(n) <= Rank(m)
+D2Step == /\ prog # <<>>
+          /\ LET op == Head(prog) IN
+             IF op[1] = "cleanup"
+             THEN IF Cardinality(ConfigNames) > CacheSize
+                  THEN /\ FsUnlink(OldestName(ConfigNames)) /\ UNCHANGED <<prog, pcw>>
+                  ELSE /\ prog' = Tail(prog) /\ UNCHANGED <<files, pcw>>
+             ELSE CASE op[1] = "create" -> /\ FsCreate(op[2], TRUE) /\ prog' = Tail(prog) /\ pcw' = 0
+                    [] op[1] = "write"  -> LET total == IF op[3] = 0 THEN 1 ELSE full[op[3]] IN
+                                           /\ FsWrite(op[2], op[3], pcw, 1)
+                                           /\ IF pcw + 1 = total THEN prog' = Tail(prog) /\ pcw' = 0
+                                                                 ELSE prog' = prog /\ pcw' = pcw + 1
+                    [] op[1] = "rename" -> /\ FsRename(op[2], op[3]) /\ prog' = Tail(prog) /\ pcw' = 0
+          /\ done' = (prog' = <<>>)
+          /\ UNCHANGED <<full, finals, vnew>>
+\* the process stops anywhere (also mid-programme); the next start fetches the next version
+D2CrashRestart == /\ vnew < MaxVer
+                  /\ vnew' = vnew + 1 /\ prog' = Programme2(vnew + 1) /\ pcw' = 0 /\ done' = FALSE
+                  /\ UNCHANGED <<files, full, finals>>
+D2Spec == D2Init /\ [][D2Step \/ D2CrashRestart]_vars
 =============================================================================
